@@ -19,7 +19,9 @@ func init() {
 		// at most 1/excessiveSizeFactor of them (shipped: 200 and 10): reachable with a handful of keys
 		"github.com/ozontech/seq-db/cache":    {"recreateThreshold": "4", "excessiveSizeFactor": "2"},
 		"github.com/ozontech/seq-db/storeapi": {"initChunkSize": "4"},
-		"github.com/ozontech/seq-db/frac":     {"minMergeQueue": "4"},
+		// the writer of the sorted documents file buffers 32 MiB (bufSize in getDocBlocksWriter): with 256 bytes a seal
+		// issues several writes to the file, so that a failing write can be one in the middle
+		"github.com/ozontech/seq-db/frac": {"minMergeQueue": "4", ":=bufSize@active_sealer.go": "256"},
 		// the collector's buffers are re-allocated smaller after defaultReuserStatsPoolSize (shipped: 200) bulks
 		"github.com/ozontech/seq-db/util": {"defaultReuserStatsPoolSize": "4"},
 		// a bin keeps maxHistogramSamples values exactly and replaces random ones beyond that (shipped: 8096):
